@@ -33,6 +33,15 @@ type Env struct {
 	cf        *ContractFile
 	pkg       *types.Package
 	depth     int
+	absIdx    map[string]absInfo
+}
+
+// absInfo: a quantified index variable rebound to an absolute position in a backing array, so that the
+// quantifier's trigger (select (select heap arr) p) contains no arithmetic.
+type absInfo struct {
+	p     Term
+	slice string
+	old   bool
 }
 
 type specErr struct{ msg string }
@@ -194,9 +203,7 @@ func (e *Env) objVal(obj types.Object) (SVal, bool) {
 			return SVal{T: tBool(constant.BoolVal(o.Val())), Typ: o.Type()}, true
 		}
 	case *types.Var:
-		gs := fe.sorts.sortOf(o.Type())
-		h := fe.getComp(e.state(), "G."+o.Pkg().Name()+"."+o.Name(), gs)
-		return SVal{T: h, Typ: o.Type()}, true
+		return SVal{T: fe.globalVal(e.state(), o.Pkg().Name(), o.Name(), o.Type()), Typ: o.Type()}, true
 	}
 	return SVal{}, false
 }
@@ -266,6 +273,11 @@ func (e *Env) resolveType(name string) types.Type {
 		return types.Typ[types.String]
 	case "bool":
 		return types.Typ[types.Bool]
+	}
+	if obj := types.Universe.Lookup(name); obj != nil {
+		if tn, ok := obj.(*types.TypeName); ok {
+			return tn.Type()
+		}
 	}
 	if strings.HasPrefix(name, "*") {
 		return types.NewPointer(e.resolveType(name[1:]))
@@ -448,26 +460,171 @@ func (fe *FnEnc) tr(ex Expr, env *Env) SVal {
 	return SVal{}
 }
 
+// findPrimaryIndex looks for an occurrence X[v] where X does not mention the quantifier's own variables.
+func findPrimaryIndex(ex Expr, v string, own map[string]bool, inOld bool) (Expr, bool, bool) {
+	var res Expr
+	var resOld, found bool
+	var walk func(e Expr, old bool)
+	mentions := func(e Expr) bool {
+		m := false
+		var w func(e Expr)
+		w = func(e Expr) {
+			switch x := e.(type) {
+			case EId:
+				if own[x.Name] {
+					m = true
+				}
+			case ESel:
+				w(x.X)
+			case EIdx:
+				w(x.X)
+				w(x.I)
+			case ESub:
+				w(x.X)
+				if x.Lo != nil {
+					w(x.Lo)
+				}
+				if x.Hi != nil {
+					w(x.Hi)
+				}
+			case ECall:
+				for _, a := range x.Args {
+					w(a)
+				}
+			case EUn:
+				w(x.X)
+			case EBin:
+				w(x.L)
+				w(x.R)
+			case ECond:
+				w(x.C)
+				w(x.A)
+				w(x.B)
+			case EIn:
+				w(x.K)
+				w(x.M)
+			case EQuant:
+				w(x.Body)
+			}
+		}
+		w(e)
+		return m
+	}
+	walk = func(e Expr, old bool) {
+		if found {
+			return
+		}
+		switch x := e.(type) {
+		case EIdx:
+			if id, ok := x.I.(EId); ok && id.Name == v && !mentions(x.X) {
+				res, resOld, found = x.X, old, true
+				return
+			}
+			walk(x.X, old)
+			walk(x.I, old)
+		case ESel:
+			walk(x.X, old)
+		case ESub:
+			walk(x.X, old)
+		case ECall:
+			o := old || x.Fn == "old"
+			for _, a := range x.Args {
+				walk(a, o)
+			}
+		case EUn:
+			walk(x.X, old)
+		case EBin:
+			walk(x.L, old)
+			walk(x.R, old)
+		case ECond:
+			walk(x.C, old)
+			walk(x.A, old)
+			walk(x.B, old)
+		case EIn:
+			walk(x.K, old)
+			walk(x.M, old)
+		case EQuant:
+			for _, b := range x.Vars {
+				if b.Name == v {
+					return
+				}
+			}
+			walk(x.Body, old)
+		}
+	}
+	walk(ex, inOld)
+	return res, resOld, found
+}
+
 func (fe *FnEnc) trQuant(x EQuant, env *Env) SVal {
+	// predicates are expanded first so that index expressions are visible
+	body0 := fe.expandPreds(x.Body, env, 0)
 	e2 := *env
 	e2.bound = map[string]SVal{}
 	for k, v := range env.bound {
 		e2.bound[k] = v
 	}
+	e2.absIdx = map[string]absInfo{}
+	for k, v := range env.absIdx {
+		e2.absIdx[k] = v
+	}
+	own := map[string]bool{}
+	for _, b := range x.Vars {
+		own[b.Name] = true
+		delete(e2.absIdx, b.Name)
+	}
 	var decls []string
+	var pats []string
+	allAbs := true
 	for _, b := range x.Vars {
 		t := env.resolveType(b.Type)
 		fe.nfresh++
-		n := fmt.Sprintf("%s!q%d", b.Name, fe.nfresh)
 		srt := fe.sorts.sortOf(t)
+		if srt == sInt && len(x.Trigs) == 0 {
+			if sx, isOld, ok := findPrimaryIndex(body0, b.Name, own, env.inOld); ok {
+				// evaluate the slice outside the quantifier
+				eS := *env
+				eS.inOld = isOld
+				func() {
+					defer func() {
+						if r := recover(); r != nil {
+							if _, ok := r.(specErr); !ok {
+								panic(r)
+							}
+						}
+					}()
+					sv := fe.mat(fe.tr(sx, &eS), &eS)
+					if sv.T.Sort == sSlice && sv.Typ != nil {
+						n := fmt.Sprintf("%s!p%d", b.Name, fe.nfresh)
+						p := Term{q(n), sInt}
+						e2.bound[b.Name] = SVal{T: tArith("-", p, slOff(sv.T)), Typ: t}
+						e2.absIdx[b.Name] = absInfo{p: p, slice: exprString(sx), old: isOld}
+						decls = append(decls, "("+q(n)+" Int)")
+						el := sv.Typ.Underlying().(*types.Slice).Elem()
+						es := fe.sorts.sortOf(el)
+						st := eS.state()
+						h := fe.getComp(st, compElems(es), arrSort(sInt, arrSort(sInt, es)))
+						pats = append(pats, tSel(tSel(h, slArr(sv.T)), p).S)
+					}
+				}()
+				if _, ok := e2.absIdx[b.Name]; ok {
+					continue
+				}
+			}
+		}
+		allAbs = false
+		n := fmt.Sprintf("%s!q%d", b.Name, fe.nfresh)
 		e2.bound[b.Name] = SVal{T: Term{q(n), srt}, Typ: t}
 		decls = append(decls, "("+q(n)+" "+srt+")")
 	}
-	body := fe.tr(x.Body, &e2)
+	body := fe.tr(body0, &e2)
 	if body.T.Sort != sBool {
 		fe.specFail("quantifier body is not boolean")
 	}
 	bs := body.T.S
+	if allAbs && len(pats) > 0 {
+		bs = "(! " + bs + " :pattern (" + strings.Join(pats, " ") + "))"
+	}
 	if len(x.Trigs) > 0 {
 		bs = "(! " + bs
 		for _, tr := range x.Trigs {
@@ -484,6 +641,61 @@ func (fe *FnEnc) trQuant(x EQuant, env *Env) SVal {
 		kw = "forall"
 	}
 	return SVal{T: Term{"(" + kw + " (" + strings.Join(decls, " ") + ") " + bs + ")", sBool}, Typ: types.Typ[types.Bool]}
+}
+
+// expandPreds macro-expands predicate calls (AST level).
+func (fe *FnEnc) expandPreds(ex Expr, env *Env, depth int) Expr {
+	if depth > 20 {
+		return ex
+	}
+	rec := func(e Expr) Expr { return fe.expandPreds(e, env, depth) }
+	switch x := ex.(type) {
+	case ECall:
+		args := make([]Expr, len(x.Args))
+		for i, a := range x.Args {
+			args[i] = rec(a)
+		}
+		if p := fe.findPred(env, x.Fn); p != nil && len(p.Params) == len(args) {
+			m := map[string]Expr{}
+			for i, pn := range p.Params {
+				m[pn] = args[i]
+			}
+			return fe.expandPreds(substExpr(p.Body, m), env, depth+1)
+		}
+		return ECall{x.Fn, args}
+	case ESel:
+		return ESel{rec(x.X), x.F}
+	case EIdx:
+		return EIdx{rec(x.X), rec(x.I)}
+	case ESub:
+		var lo, hi Expr
+		if x.Lo != nil {
+			lo = rec(x.Lo)
+		}
+		if x.Hi != nil {
+			hi = rec(x.Hi)
+		}
+		return ESub{rec(x.X), lo, hi}
+	case EUn:
+		return EUn{x.Op, rec(x.X)}
+	case EBin:
+		return EBin{x.Op, rec(x.L), rec(x.R)}
+	case ECond:
+		return ECond{rec(x.C), rec(x.A), rec(x.B)}
+	case EIn:
+		return EIn{rec(x.K), rec(x.M)}
+	case EQuant:
+		var trigs [][]Expr
+		for _, tr := range x.Trigs {
+			var t2 []Expr
+			for _, t := range tr {
+				t2 = append(t2, rec(t))
+			}
+			trigs = append(trigs, t2)
+		}
+		return EQuant{x.Forall, x.Vars, rec(x.Body), trigs}
+	}
+	return ex
 }
 
 func (fe *FnEnc) modelFields(t types.Type) (string, []ModelField) {
@@ -606,7 +818,13 @@ func (fe *FnEnc) trIdx(x EIdx, env *Env) SVal {
 		switch t := xv.Typ.Underlying().(type) {
 		case *types.Slice:
 			es := fe.sorts.sortOf(t.Elem())
+			fe.compT[compElems(es)] = t.Elem()
 			h := fe.getComp(st, compElems(es), arrSort(sInt, arrSort(sInt, es)))
+			if id, ok := x.I.(EId); ok {
+				if ai, ok := env.absIdx[id.Name]; ok && ai.slice == exprString(x.X) && ai.old == env.inOld {
+					return SVal{T: tSel(tSel(h, slArr(xv.T)), ai.p), Typ: t.Elem()}
+				}
+			}
 			return SVal{T: tSel(tSel(h, slArr(xv.T)), tArith("+", slOff(xv.T), iv.T)), Typ: t.Elem()}
 		case *types.Map:
 			return SVal{T: fe.mapGet(st, t, xv.T, iv.T, false), Typ: t.Elem()}
@@ -722,6 +940,42 @@ func (fe *FnEnc) trCall(x ECall, env *Env) SVal {
 		a := fe.tr(x.Args[0], env)
 		b := fe.tr(x.Args[1], env)
 		return SVal{T: tCmp("<", Term{app("strord", a.T), sReal}, Term{app("strord", b.T), sReal}), Typ: types.Typ[types.Bool]}
+	case "digestOK":
+		a := fe.tr(x.Args[0], env)
+		fe.declFun("digestOK", []string{sStr}, sBool)
+		return SVal{T: Term{app("digestOK", a.T), sBool}, Typ: types.Typ[types.Bool]}
+	case "frame_elems": // rows of the element heap that existed in the old state are unchanged
+		t := env.resolveType(exprName(x.Args[0]))
+		es := fe.sorts.sortOf(t)
+		cn, cs := compElems(es), arrSort(sInt, arrSort(sInt, es))
+		cur, old := fe.getComp(env.cur, cn, cs), fe.getComp(env.old, cn, cs)
+		oa := fe.getComp(env.old, "alloc", sInt)
+		return SVal{T: Term{fmt.Sprintf("(forall ((r Int)) (! (=> (<= r %s) (= (select %s r) (select %s r))) :pattern ((select %s r))))", oa.S, cur.S, old.S, cur.S), sBool}, Typ: types.Typ[types.Bool]}
+	case "frame_maps":
+		kt := env.resolveType(exprName(x.Args[0]))
+		vt := env.resolveType(exprName(x.Args[1]))
+		mt := types.NewMap(kt, vt)
+		d1, v1, c1, _, _ := fe.mapComps(env.cur, mt, false)
+		d0, v0, c0, _, _ := fe.mapComps(env.old, mt, false)
+		oa := fe.getComp(env.old, "alloc", sInt)
+		f := fmt.Sprintf("(forall ((r Int)) (! (=> (<= r %s) (and (= (select %s r) (select %s r)) (= (select %s r) (select %s r)) (= (select %s r) (select %s r)))) :pattern ((select %s r)) :pattern ((select %s r)) :pattern ((select %s r))))",
+			oa.S, d1.S, d0.S, v1.S, v0.S, c1.S, c0.S, d1.S, v1.S, c1.S)
+		return SVal{T: Term{f, sBool}, Typ: types.Typ[types.Bool]}
+	case "frame_struct": // objects of the struct type that existed in the old state are unchanged (all non-struct fields)
+		t := env.resolveType(exprName(x.Args[0]))
+		st := structOf(t)
+		oa := fe.getComp(env.old, "alloc", sInt)
+		var cs []Term
+		for i := 0; i < st.NumFields(); i++ {
+			if structOf(st.Field(i).Type()) != nil || fe.c.escFields[escKey(t, i)] {
+				continue
+			}
+			cn := compField(t, i)
+			srt := arrSort(sInt, fe.sorts.sortOf(st.Field(i).Type()))
+			cur, old := fe.getComp(env.cur, cn, srt), fe.getComp(env.old, cn, srt)
+			cs = append(cs, Term{fmt.Sprintf("(forall ((r Int)) (! (=> (<= r %s) (= (select %s r) (select %s r))) :pattern ((select %s r))))", oa.S, cur.S, old.S, cur.S), sBool})
+		}
+		return SVal{T: tAnd(cs...), Typ: types.Typ[types.Bool]}
 	case "typeid":
 		a := fe.tr(x.Args[0], env)
 		return SVal{T: ifTyp(a.T), Typ: types.Typ[types.Int]}
